@@ -468,6 +468,13 @@ fn gen_cases(seed: u64, thorough: bool) -> Vec<String> {
             }
         }
     }
+    // payloads just above 64 KiB through the bulk client calls (both tiers)
+    for (t, n) in [("f64", 8200usize), ("u64", 8193)] {
+        if !TYPES.contains(&t) { continue; }
+        for (rk, ck) in [("s", "b"), ("t", "b"), ("r", "b")] {
+            cases.push(format!("k=net rk={rk} ck={ck} t={t} xs={} ql={:x}", gen_xs(&mut rng, t, n), 5));
+        }
+    }
     cases.into_iter().enumerate().map(|(i, c)| format!("i={i} {c}")).collect()
 }
 
